@@ -38,6 +38,10 @@ func init() {
 					add(arch, la, 0, y, 1)
 				}
 			}
+			if c.Tier != "thorough" {
+				// two i386 lines once (a seeded change needed the line before an i386 raw syscall instruction)
+				add("i386", 2, 0, 2, 0)
+			}
 			// monotonicity
 			add("x86_64", 1, 1, 1, 0)
 			add("i386", 1, 1, 1, 0)
